@@ -17,8 +17,10 @@ from .rat import frac
 
 TYPES = ["recording_set", "dataset", "annotation_set", "annotation_project", "evaluation_set", "prediction_set",
          "model_run", "evaluation"]
-TEXTS = ["", "x", "Some text", "ñandú çà", "line\nbreak", "  spaced  ", "0", "null", "None", "quote\"s"]
-NAMES = ["a", "rec 1", "ünï", "b.c", "x-y", "Z"]
+# decomposed (NFD) spellings on purpose: a string must come back as the same code points, not a normalised form
+TEXTS = ["", "x", "Some text", "ñandú çà", "line\nbreak", "  spaced  ", "0", "null", "None", "quote\"s",
+         "estacio\u0301n n\u0303u", "\u1112\u1161\u11ab"]
+NAMES = ["a", "rec 1", "ünï", "b.c", "x-y", "Z", "A\u030a"]
 KEYS = ["species", "sex", "k", "soundevent:x", "Duration", "snr", "", "a b"]
 VALUES = ["Myotis", "f", "", "0", "x y", "ñ"]
 STATES = ["assigned", "completed", "verified", "rejected"]
@@ -126,8 +128,9 @@ class Gen:
     def path(self, i):
         r = self.rng
         depth = r.randint(0, 3)
-        parts = [r.choice(["sub", "a b", "ünï", "2024", "x.y", ".hidden", "..."]) for _ in range(depth)]
-        parts.append(r.choice(["rec.wav", "ñandú 1.WAV", "a.b.c.flac", "rec", " "]) if r.random() < 0.8 else f"r{i}.wav")
+        parts = [r.choice(["sub", "a b", "ünï", "2024", "x.y", ".hidden", "...", "estacio\u0301n"]) for _ in range(depth)]
+        parts.append(r.choice(["rec.wav", "ñandú 1.WAV", "a.b.c.flac", "rec", " ", "grabacio\u0301n n\u0303u.wav",
+                               "\u1112\u1161\u11ab.wav"]) if r.random() < 0.8 else f"r{i}.wav")
         rel = "/".join(parts)
         if self.base is None:
             return rel
@@ -283,3 +286,50 @@ class Gen:
 
 def gen_collection(rng, ty, rich=False, base="/data/audio", size=1.0):
     return Gen(rng, rich=rich, base=base, size=size).collection(ty)
+
+
+# ----------------------------------------------------------------------------- histories
+_TEXT_FIELDS = ("username", "name", "institution", "message", "hash", "rights", "license", "description", "instructions",
+                "version")
+
+
+def _bump(tok):
+    """another float token, still in [0, 1] when the old one was"""
+    x = float(tok)
+    y = (x + 0.25) % 1.0 if 0.0 <= x <= 1.0 else x + 1.0
+    return num(y)
+
+
+def revise(cj):
+    """The same object graph (same uuids, same sharing) with changed *content*: every change is a pure function of the
+    old value, so copies of one object stay equal (coherence is preserved).  Used for histories: a later save/load
+    of the revised collection must not see anything remembered from the earlier one."""
+    def walk(x, key=None):
+        if isinstance(x, dict):
+            y = {k: walk(v, k) for k, v in x.items()}
+            if "uuid" in y:
+                for f in _TEXT_FIELDS:
+                    if f in y and isinstance(y[f], str):
+                        y[f] = y[f] + "\u2032"
+                if isinstance(y.get("email"), str):
+                    y["email"] = "rev." + y["email"]
+                if "is_issue" in y:
+                    y["is_issue"] = not y["is_issue"]
+                for f in ("score", "affinity"):
+                    if isinstance(y.get(f), str):
+                        y[f] = _bump(y[f])
+                if "duration" in y:
+                    y["duration"] = num(float(y["duration"]) + 1.0)
+                if "end_time" in y:
+                    y["end_time"] = num(float(y["end_time"]) + 1.0)
+            if set(y) == {"tag", "score"}:
+                y["score"] = _bump(y["score"])
+            if set(y) == {"key", "value"} and key in ("features", "metrics") :
+                pass
+            return y
+        if isinstance(x, list):
+            if key in ("features", "metrics"):
+                return [dict(f, value=num(float(f["value"]) + 1.0)) for f in x]
+            return [walk(v, key) for v in x]
+        return x
+    return walk(cj)
